@@ -31,6 +31,14 @@ def band(*xs):
     return BAND * max([1] + [abs(Fr(x)) for x in xs])
 
 
+ULP = Fr(1, 2 ** 52)
+
+
+def tight(*xs):
+    """a few ulps of the largest magnitude involved: what scaling by a power of ten in doubles can legitimately lose"""
+    return 64 * ULP * max([abs(Fr(x)) for x in xs])
+
+
 def is_multiple(r, u, b):
     k = round(Fr(r) / u)
     return abs(Fr(r) - k * u) <= b
@@ -74,8 +82,13 @@ class Check(FormulaCheck):
             return s * rnd.choice([0, 1, 2, 5, 10, 25, 100, 300000, 10 ** 9, rnd.randint(0, 10 ** 6), rnd.randint(0, 10 ** 9)])
         if k < 0.5:
             return s * rnd.choice([0.5, 0.25, 1.5, 2.75, 0.125, 1234.0625, rnd.randint(0, 10 ** 6) / 64.0, rnd.randint(0, 10 ** 5) + 0.5])
-        if k < 0.8:
+        if k < 0.7:
             return s * round(rnd.uniform(0, 10 ** rnd.randint(0, 6)), rnd.randint(0, 6))
+        if k < 0.85:
+            # just beside a multiple of a power of ten: by 1e-9 .. 1e-13 of the unit (far above double noise, far below a casual epsilon)
+            j = rnd.randint(-6, 3)
+            m = rnd.randint(0, 2000) * 10.0 ** j
+            return s * (m + rnd.choice([1, -1]) * 10.0 ** (j - rnd.randint(9, 13)))
         return s * rnd.choice([1.1, 2.3, 1.005, 0.1, 0.7, 1e-7, 123456.789, 0.29, 4.35, 999999999.9])
 
     def c_rounding(self, spec, rec):
@@ -85,7 +98,7 @@ class Check(FormulaCheck):
             d = rnd.randint(-6, 6)
             u = Fr(10) ** (-d)
             X = Fr(x)
-            b = band(x, u)
+            b = tight(x, u)
             exact_multiple = (X / u).denominator == 1
             for fn in ('ROUND', 'ROUNDUP', 'ROUNDDOWN'):
                 r = self.ev('%s(v_x,v_d)' % fn, v_x=x, v_d=d)
@@ -93,7 +106,7 @@ class Check(FormulaCheck):
                 if not self.expect('C17/%s-not-a-number' % fn, finite(r), x=x, digits=d, got=r):
                     continue
                 R = Fr(r)
-                ok = is_multiple(r, u, band(r, x, u))
+                ok = is_multiple(r, u, tight(r, x, u))
                 why = 'not-multiple-of-unit'
                 if ok and fn == 'ROUND':
                     ok, why = abs(R - X) <= u / 2 + b, 'more-than-half-a-unit-away'
@@ -115,7 +128,7 @@ class Check(FormulaCheck):
                 if not self.expect('C17/%s-not-a-number' % fn, finite(r), x=x, significance=s, got=r):
                     continue
                 R, S = Fr(r), abs(Fr(s))
-                bb = band(r, x, s)
+                bb = tight(r, x, s)
                 up = (fn == 'CEILING') == (not (x < 0 and s < 0))      # which side of x the result lies on
                 ok = is_multiple(r, S, bb) and ((R >= X - bb and R - X < S + bb) if up else (R <= X + bb and X - R < S + bb))
                 if ok and (X / S).denominator == 1:
